@@ -10,6 +10,8 @@ verus! {
 pub type BlockRange = RangeInclusive<u64>;
 
 // ---- assumed specifications of std functions (A-std; cross-checked by Kani harnesses) ----
+pub assume_specification<T> [bool::then_some] (b: bool, t: T) -> (r: Option<T>)
+    ensures r == (if b { Some(t) } else { None::<T> });
 pub assume_specification<Idx> [std::ops::RangeInclusive::<Idx>::start] (r: &RangeInclusive<Idx>) -> (s: &Idx)
     ensures *s == r@.start;
 pub assume_specification<Idx> [std::ops::RangeInclusive::<Idx>::end] (r: &RangeInclusive<Idx>) -> (s: &Idx)
